@@ -194,11 +194,11 @@ func (m *vfMQ) event(ns, name string, payload []byte) bool {
 
 type vfClient struct {
 	lagging bool // the scheduler does not run this connection's worker
-	c      *wsConn
-	sink   *vfSink
-	seen   int
-	frames []string
-	nextID uint64
+	c       *wsConn
+	sink    *vfSink
+	seen    int
+	frames  []string
+	nextID  uint64
 }
 
 type vfWorld struct {
